@@ -247,6 +247,40 @@ Definition scope_of_node (k : snode) : option (list snode) :=
 Definition pcons (s : seg) (r : pres) : pres :=
   match r with POk l => POk (s :: l) | _ => r end.
 
+(** one segment of parseUrlPath's loop; [next]: the rest of the loop, given the definitions the
+    following segment is resolved in *)
+Definition parse_one (is_mod : bool) (pfx : ident) (kids : list snode) (sg : list byte)
+           (next : option (list snode) -> pres) : pres :=
+  let (raw_ident, raw_keys) := cut_at equals sg in
+  match unescape raw_ident with
+  | None => PErr FOther
+  | Some ident =>
+      match (match raw_keys with
+             | None => Some None
+             | Some rk => option_map Some (unescape_all (split_on comma rk))
+             end) with
+      | None => PErr FOther
+      | Some keystrs =>
+          if has_byte slash ident then PUnmodelled else
+          match seg_lookup is_mod pfx kids ident with
+          | None => PErr FNotFound
+          | Some (i, k) =>
+              match keystrs with
+              | None => pcons (mkSeg i k None) (next (scope_of_node k))
+              | Some ks =>
+                  match k with
+                  | SList _ _ _ =>
+                      match conv_keys (key_types k) ks with
+                      | None => PErr FOther
+                      | Some vals => pcons (mkSeg i k (Some vals)) (next (scope_of_node k))
+                      end
+                  | _ => PPanic  (* seg.Meta.( *meta.List) on a container or leaf *)
+                  end
+              end
+          end
+      end
+  end.
+
 Fixpoint parse_segs (is_mod : bool) (pfx : ident) (scope : option (list snode))
          (segs : list (list byte)) : pres :=
   match segs with
@@ -255,37 +289,7 @@ Fixpoint parse_segs (is_mod : bool) (pfx : ident) (scope : option (list snode))
   | sg :: tl =>
       match scope with
       | None => PPanic                   (* p.Meta.(meta.HasDefinitions) on a leaf *)
-      | Some kids =>
-          let (raw_ident, raw_keys) := cut_at equals sg in
-          match unescape raw_ident with
-          | None => PErr FOther
-          | Some ident =>
-              match (match raw_keys with
-                     | None => Some None
-                     | Some rk => option_map Some (unescape_all (split_on comma rk))
-                     end) with
-              | None => PErr FOther
-              | Some keystrs =>
-                  if has_byte slash ident then PUnmodelled else
-                  match seg_lookup is_mod pfx kids ident with
-                  | None => PErr FNotFound
-                  | Some (i, k) =>
-                      match keystrs with
-                      | None => pcons (mkSeg i k None) (parse_segs false pfx (scope_of_node k) tl)
-                      | Some ks =>
-                          match k with
-                          | SList _ _ _ =>
-                              match conv_keys (key_types k) ks with
-                              | None => PErr FOther
-                              | Some vals =>
-                                  pcons (mkSeg i k (Some vals)) (parse_segs false pfx (scope_of_node k) tl)
-                              end
-                          | _ => PPanic  (* seg.Meta.( *meta.List) on a container or leaf *)
-                          end
-                      end
-                  end
-              end
-          end
+      | Some kids => parse_one is_mod pfx kids sg (fun sc => parse_segs false pfx sc tl)
       end
   end.
 
